@@ -16,7 +16,7 @@ Definition mkcaseo (kind m : nat) (v : pv) (hx : string) (sz : N) (j : jv) (back
   (kind, (m, (v, (hx, (sz, (j, (back, hx2))))))).
 
 Definition otlp_to_json := to_json OtlpSchema.
-Definition otlp_of_json := of_json OtlpSchema OtlpJsonDecoders OtlpEnums.
+Definition otlp_of_json := unmarshal_json OtlpSchema OtlpJsonDecoders OtlpEnums.   (* the public JSON decode path *)
 
 Definition opv_eqb (a b : option pv) : bool := option_eqb pv_eqb a b.
 
@@ -144,14 +144,25 @@ Definition clause_fixpoint (c : case) : bool :=
   end.
 Definition prop_ok (c : case) : bool := clause_size c && clause_roundtrip c && clause_rebytes c && clause_fixpoint c.
 
-(* the two recorded losses (-0.0 in a singular double, nil bytes in a oneof) are exactly the payloads that
-   are not canonical: there the round trip is demanded up to `norm` (protobuf) resp. not demanded (JSON) *)
+(* the one recorded loss (-0.0 in a singular double, findings C08-NEGZERO / -JSON): a payload that is not
+   canonical but has no nil oneof member differs from a canonical one only there; for it the round trip is
+   demanded up to `norm` (protobuf) resp. not demanded (JSON).  Everything else is strict. *)
+(* no oneof member holds a nil value (VSome VNone): what the public API builds never does (NewValueBytes /
+   SetEmptyBytes store an empty non-nil slice) *)
+Fixpoint nil_free (v : pv) {struct v} : bool :=
+  match v with
+  | VSome VNone => false
+  | VSome x => nil_free x
+  | VMsg l | VRep l => (fix go (l : list pv) : bool := match l with [] => true | x :: r => nil_free x && go r end) l
+  | _ => true
+  end.
+
 Definition prop_ok_known (c : case) : bool :=
   let '(kind, (m, (v, (hx, (sz, (j, (back, hx2))))))) := c in
   match kind with
-  | O => if canonical OtlpSchema m v then prop_ok c
+  | O => if canonical OtlpSchema m v || negb (nil_free v) then prop_ok c
          else clause_size c && opv_eqb (obs_back v back) (Some (norm OtlpSchema m v)) && clause_rebytes c
-  | 4%nat => if canonical OtlpSchema m v then prop_ok c else true
+  | 4%nat => if canonical OtlpSchema m v || negb (nil_free v) then prop_ok c else true
   | _ => prop_ok c
   end.
 
